@@ -911,4 +911,142 @@ def r2_8(ctx: Ctx) -> RuleResult:
     return rr
 
 
-RULES = [r2_1, r2_2, r2_3, r2_4, r2_5, r2_6, r2_7, r2_8]
+def r2_9(ctx: Ctx) -> RuleResult:
+    """RFC 9535 2.4.4-2.4.8: the five standard functions on a covering set of arguments.  `length` counts characters,
+    elements or members and is Nothing for other values; `count` is the number of nodes; `value` is the value of a
+    single node and Nothing otherwise; `match` tests the whole string, `search` any part of it, and both are false for
+    a non-string or an invalid pattern.  Their `__call__` bodies are executed abstractly (rules/model.py; regular
+    expressions by the standard `re` module on constant arguments)."""
+    from sa.consteval import Instance
+    from sa.peval import UNKNOWN
+
+    from .model import RAISES
+    from .model import MObj
+    from .model import Model
+
+    rr = RuleResult("R2.9", "the standard functions compute what RFC 9535 defines on covering arguments", floor=30)
+    NOTHING = "<Nothing>"
+
+    def norm(v: object) -> object:
+        if isinstance(v, Instance) and v.cls.name in ("_Undefined", "Undefined"):
+            return NOTHING
+        return v
+
+    mm = Model(ctx, "R2.9")
+    n1, n2 = MObj(mm, "JSONPathMatch", {"obj": 7}), MObj(mm, "JSONPathMatch", {"obj": 8})
+    cases = [
+        ("Length", [("abc",), 3]), ("Length", [("",), 0]), ("Length", [((1, 2),), 2]), ("Length", [((),), 0]),
+        ("Length", [({"a": 1, "b": 2},), 2]), ("Length", [(5,), NOTHING]), ("Length", [(True,), NOTHING]), ("Length", [(None,), NOTHING]),
+        ("Length", [(1.5,), NOTHING]),
+        ("Count", [((),), 0]), ("Count", [((n1,),), 1]), ("Count", [((n1, n2),), 2]),
+        ("Value", [((),), NOTHING]), ("Value", [((n1,),), 7]), ("Value", [((n1, n2),), NOTHING]),
+        ("Match", [("abc", "a.c"), True]), ("Match", [("abcd", "a.c"), False]), ("Match", [("xabc", "a.c"), False]),
+        ("Match", [("ab", "ab|abc"), True]), ("Match", [("abc", "ab|abc"), True]),
+        ("Match", [(5, "a"), False]), ("Match", [("a", 5), False]), ("Match", [("a", "("), False]), ("Match", [("", ""), True]),
+        ("Search", [("abc", "a.c"), True]), ("Search", [("xabcd", "a.c"), True]), ("Search", [("abc", "b"), True]),
+        ("Search", [("abc", "d"), False]), ("Search", [(5, "a"), False]), ("Search", [("a", 5), False]), ("Search", [("a", "("), False]),
+        ("Search", [("b", "ab"), False]),
+    ]
+    bad_seen: Set[str] = set()
+    for cname, (args, want) in cases:
+        model = Model(ctx, "R2.9")
+        model.whole_bodies = True
+        try:
+            cls = ctx.repo.require_class(cname)
+        except AnalysisError:
+            raise AnalysisError(f"R2.9: the standard function class {cname} was not found") from None
+        fn = ctx.repo.find_method(cls, "__call__")
+        if fn is None:
+            raise AnalysisError(f"R2.9: {cname}.__call__ not found")
+        got = norm(model.call(MObj(model, cname, {}), "__call__", list(args)))
+        shown = tuple("<1 node>" if isinstance(a, tuple) and a and isinstance(a[0], MObj) and len(a) == 1 else
+                      ("<2 nodes>" if isinstance(a, tuple) and a and isinstance(a[0], MObj) else a) for a in args)
+        if got is UNKNOWN:
+            raise AnalysisError(f"R2.9: {cname.lower()}{shown} cannot be determined")
+        if got is not RAISES and got == want and type(got) is type(want):
+            rr.ok(fn.loc(), f"{cname.lower()}{shown} = {want!r}")
+        elif cname not in bad_seen:
+            bad_seen.add(cname)
+            rr.bad(fn, fn.node, f"the standard function `{cname.lower()}` gives {'an exception' if got is RAISES else repr(got)} for {shown}; RFC 9535 defines {want!r}",
+                   construct=f"{cname.lower()}{shown} -> {'raise' if got is RAISES else repr(got)} instead of {want!r}")
+    return rr
+
+
+def r2_10(ctx: Ctx) -> RuleResult:
+    """RFC 9535 2.3.5.2.2, the comparison table.  `JSONPathEnvironment.compare` - with everything it calls, the
+    deep-equality routine of another module included - is executed abstractly for the six comparison operators on
+    every ordered pair of a covering set of operands: null, both booleans, integers and floats that are equal /
+    ordered, strings, arrays and objects (empty, equal, differing in a nested boolean-vs-number), and Nothing.
+    The result must be the RFC's: equality within a kind (numbers by value, never a boolean with a number, containers
+    deeply), ordering for two numbers or two strings only, `<=` / `>=` as ordering-or-equality, `!=` as negation."""
+    from sa.peval import UNKNOWN
+
+    from .model import RAISES
+    from .model import MObj
+    from .model import Model
+
+    rr = RuleResult("R2.10", "comparisons give the RFC's truth table on covering operands", floor=800)
+    fmod = ctx.repo.modules["jsonpath.filter"]
+    try:
+        nothing = ctx.folder.global_value(fmod, "UNDEFINED")
+    except NotConst as err:
+        raise AnalysisError(f"R2.10: UNDEFINED cannot be folded: {err}") from err
+    vals: List[object] = [None, True, False, 0, 1, 2, 1.0, 1.5, "a", "b", "", (), (1,), (1, 2), (True,), {}, {"a": 1}, {"a": True}, {"b": 1}, nothing]
+
+    def kind(v: object) -> str:
+        if v is nothing:
+            return "nothing"
+        if v is None:
+            return "null"
+        if isinstance(v, bool):
+            return "boolean"
+        if isinstance(v, (int, float)):
+            return "number"
+        if isinstance(v, str):
+            return "string"
+        return "array" if isinstance(v, tuple) else "object"
+
+    def eq(a: object, b: object) -> bool:
+        ka, kb = kind(a), kind(b)
+        if ka != kb:
+            return False
+        if ka in ("nothing", "null"):
+            return True
+        if ka == "array":
+            return len(a) == len(b) and all(eq(x, y) for x, y in zip(a, b))  # type: ignore[arg-type]
+        if ka == "object":
+            return set(a) == set(b) and all(eq(a[k], b[k]) for k in a)  # type: ignore[arg-type,index]
+        return a == b
+
+    def lt(a: object, b: object) -> bool:
+        return kind(a) == kind(b) and kind(a) in ("number", "string") and a < b  # type: ignore[operator]
+
+    ref = {"==": eq, "!=": lambda a, b: not eq(a, b), "<": lt, ">": lambda a, b: lt(b, a),
+           "<=": lambda a, b: lt(a, b) or eq(a, b), ">=": lambda a, b: lt(b, a) or eq(a, b)}
+    fn = ctx.repo.require_func("JSONPathEnvironment.compare")
+    first_bad: Dict[str, Tuple[object, object, object, object]] = {}
+    model = Model(ctx, "R2.10")
+    model.whole_bodies = True
+    env = MObj(model, "JSONPathEnvironment", {})
+    n_ok = 0
+    for op, f in ref.items():
+        for a in vals:
+            for b in vals:
+                got = model.call(env, "compare", [a, op, b])
+                if got is UNKNOWN:
+                    raise AnalysisError(f"R2.10: compare({a!r}, {op!r}, {b!r}) cannot be determined")
+                want = bool(f(a, b))
+                if got is not RAISES and isinstance(got, bool) and got == want:
+                    n_ok += 1
+                elif op not in first_bad:
+                    first_bad[op] = (a, b, got, want)
+    for _ in range(n_ok):
+        rr.ok(fn.loc(), "compare() agrees with the RFC table")
+    for op, (a, b, got, want) in sorted(first_bad.items()):
+        sa, sb = ("Nothing" if x is nothing else repr(x) for x in (a, b))
+        rr.bad(fn, fn.node, f"`{sa} {op} {sb}` evaluates to {'an exception' if got is RAISES else got} but RFC 9535 2.3.5.2.2 makes it {want} "
+               f"({kind(a)} against {kind(b)})", construct=f"compare: {sa} {op} {sb} -> {got!r} instead of {want}")
+    return rr
+
+
+RULES = [r2_1, r2_2, r2_3, r2_4, r2_5, r2_6, r2_7, r2_8, r2_9, r2_10]
